@@ -137,8 +137,32 @@ def i2(prog, ctx):
                     fn = enclosing_function(node)
                     fq = getattr(fn, "_qualname", "<module>")
                     nums = [c for c in ast.walk(node) if isinstance(c, ast.Call) and dotted(c.func) == "str"]
-                    okn = nums and all(src(c.args[0]) in ("self.get_transcript_id()", "self.id_distributor.increment()")
-                                       for c in nums)
+
+                    def from_distributor(e, fnode, depth=0):
+                        """the number is a distributor call, a local defined by one, or a parameter that every caller fills so"""
+                        if src(e) in ("self.get_transcript_id()", "self.id_distributor.increment()"):
+                            return True
+                        if isinstance(e, ast.Name) and fnode is not None and depth < 3:
+                            ds = [x for x in walk_no_nested(fnode) if isinstance(x, ast.Assign) and any(dotted(t) == e.id for t in x.targets)]
+                            if ds:
+                                return all(from_distributor(x.value, fnode, depth + 1) for x in ds)
+                            params = [a.arg for a in fnode.args.args]
+                            if e.id in params:
+                                from ..engine import argswap
+                                sites = []
+                                for _m2, _q2, f2 in prog.all_functions():
+                                    for c2 in walk_no_nested(f2):
+                                        if isinstance(c2, ast.Call) and (call_name(c2) or "").split(".")[-1] == fnode.name:
+                                            sites.append((f2, c2))
+                                if not sites:
+                                    return False
+                                for f2, c2 in sites:
+                                    b = argswap.bind_args(c2, fnode, bound_method=("staticmethod" not in [dotted(x) for x in fnode.decorator_list]))
+                                    if e.id not in b or not from_distributor(b[e.id], f2, depth + 1):
+                                        return False
+                                return True
+                        return False
+                    okn = nums and all(from_distributor(c.args[0], fn) for c in nums)
                     if not okn:
                         ctx.fail("I2", node, fq, src(node),
                                  "id built from %s takes its number from %s, not from the excluding distributor"
@@ -167,15 +191,19 @@ def i2(prog, ctx):
             defs = [s for s in walk_no_nested(fn) if isinstance(s, ast.Assign) and any(dotted(t) == arg.id for t in s.targets)]
             why = "%s defined by %s" % (arg.id, [src(d.value) for d in defs])
             if len(defs) == 1 and isinstance(defs[0].value, ast.Call) and call_name(defs[0].value) == "ExcludingIdDistributor":
-                dargs = defs[0].value.args
+                from ..engine import argswap
+                einit = prog.func(IDP, "ExcludingIdDistributor.__init__")
+                bound = argswap.bind_args(defs[0].value, einit, bound_method=True)
+                a_db = next((v for k, v in bound.items() if "db" in k), None)
+                a_chr = next((v for k, v in bound.items() if "chr" in k), None)
                 params = [a.arg for a in fn.args.args]
                 # same database variable the loader/aggregator of this task use, and the task's chromosome parameter
                 loader = [x for x in walk_no_nested(fn) if isinstance(x, ast.Call) and call_name(x) == "ReadAssignmentLoader"]
-                db_ok = len(dargs) == 2 and isinstance(dargs[0], ast.Name) and loader and \
-                    any(isinstance(a, ast.Name) and a.id == dargs[0].id for a in loader[0].args)
-                chr_ok = len(dargs) == 2 and isinstance(dargs[1], ast.Name) and dargs[1].id in params and \
+                db_ok = isinstance(a_db, ast.Name) and bool(loader) and \
+                    any(isinstance(a, ast.Name) and a.id == a_db.id for a in list(loader[0].args) + [k.value for k in loader[0].keywords])
+                chr_ok = isinstance(a_chr, ast.Name) and a_chr.id in params and \
                     not any(isinstance(s, (ast.Assign, ast.AugAssign)) and
-                            any(dotted(t) == dargs[1].id for t in (s.targets if isinstance(s, ast.Assign) else [s.target]))
+                            any(dotted(t) == a_chr.id for t in (s.targets if isinstance(s, ast.Assign) else [s.target]))
                             for s in walk_no_nested(fn))
                 okd = db_ok and chr_ok
                 why += "; db same as loader: %s; chromosome is the task parameter: %s" % (db_ok, chr_ok)
@@ -189,31 +217,53 @@ def i2(prog, ctx):
             ctx.ok("I2", "%s:%d" % (c._module.rel, c.lineno), "model constructor gets ExcludingIdDistributor(db, chr_id) of the task")
         n += 1
     ctx.floor("I2", "construction sites of GraphBasedModelConstructor", len(sites), 1)
-    ctx.floor("I2", "id strings built from TranscriptNaming prefixes", uses, 3)
-    # (c) ExcludingIdDistributor.increment re-tests forbidden ids in a loop
+    ctx.floor("I2", "id strings built from TranscriptNaming prefixes", uses, 2)
+    # (c) ExcludingIdDistributor.increment: on every path the returned number was last seen NOT to be in forbidden_ids
+    from ..engine import symexec
     inc = prog.func(IDP, "ExcludingIdDistributor.increment")
-    loops = [s for s in inc.body if isinstance(s, ast.While)]
-    ok_loop = False
-    for w in loops:
-        t = w.test
-        if isinstance(t, ast.Compare) and isinstance(t.ops[0], ast.In) and src(t.left) == "self.value" \
-                and src(t.comparators[0]) == "self.forbidden_ids" \
-                and any(isinstance(s, ast.AugAssign) and src(s.target) == "self.value" for s in w.body):
-            ok_loop = True
-    last = inc.body[-1]
-    if not ok_loop or not (isinstance(last, ast.Return) and src(last.value) == "self.value") \
-            or (loops and loops[-1].lineno > last.lineno):
-        ctx.fail("I2", inc, inc._qualname, "increment", "increment() must skip every forbidden id in a loop "
-                 "('while self.value in self.forbidden_ids: self.value += 1') right before returning self.value")
+    bad_path = None
+    npaths = 0
+    for pth in flow.paths(inc):
+        if pth.exit != "return" or pth.exit_node is None or pth.exit_node.value is None:
+            bad_path = bad_path or (pth, "a path returns no number")
+            continue
+        npaths += 1
+        rv = pth.exit_node.value
+        # names that hold the returned number at the end of the path (self.value = next_value makes them aliases)
+        alias = {src(rv)}
+        for ev in reversed(pth.events):
+            if ev[0] == "stmt" and isinstance(ev[1], ast.Assign) and len(ev[1].targets) == 1:
+                t, v = src(ev[1].targets[0]), src(ev[1].value)
+                if t in alias and isinstance(ev[1].value, (ast.Name, ast.Attribute)):
+                    alias.add(v)
+                elif v in alias and isinstance(ev[1].targets[0], (ast.Name, ast.Attribute)):
+                    alias.add(t)
+        cleared = False
+        bumped = False
+        for ev in pth.events:
+            if ev[0] == "stmt":
+                st_ = ev[1]
+                tg = [src(st_.target)] if isinstance(st_, ast.AugAssign) else ([src(t) for t in st_.targets] if isinstance(st_, ast.Assign) else [])
+                if any(t in alias for t in tg):
+                    if isinstance(st_, ast.AugAssign) or not (isinstance(st_.value, (ast.Name, ast.Attribute)) and src(st_.value) in alias):
+                        cleared = False          # the number changed: any earlier test is void
+                        bumped = True
+            elif ev[0] == "cond":
+                for atom, pol in flow.conjuncts(ev[1], ev[2]):
+                    if isinstance(atom, ast.Compare) and len(atom.ops) == 1 and src(atom.left) in alias \
+                            and src(atom.comparators[0]) == "self.forbidden_ids":
+                        if (isinstance(atom.ops[0], ast.In) and not pol) or (isinstance(atom.ops[0], ast.NotIn) and pol):
+                            cleared = True
+        if not cleared or not bumped:
+            bad_path = bad_path or (pth, "the returned number %s" % ("is not tested against forbidden_ids after its last change" if bumped else "is never advanced"))
+    if bad_path or npaths == 0:
+        pth, why = bad_path if bad_path else (None, "no returning path")
+        ctx.fail("I2", inc, inc._qualname, "increment", "increment() must advance the counter and return a number that was tested not to be in "
+                 "forbidden_ids after its last change (%s)" % why, path=pth.describe() if pth else None)
     else:
-        ctx.ok("I2", "%s:%d" % (IDP, inc.lineno), "increment skips forbidden ids in a loop before returning")
-    # the loop must be the last thing before return (no increment after the loop)
-    if ok_loop:
-        after = [s for s in inc.body if s.lineno > loops[-1].lineno and not isinstance(s, ast.Return)]
-        if after:
-            ctx.fail("I2", after[0], inc._qualname, src(after[0]), "value modified after the forbidden-id loop")
+        ctx.ok("I2", "%s:%d" % (IDP, inc.lineno), "increment: on all %d paths the returned number is advanced and last seen outside forbidden_ids" % npaths)
     # (d) parse prefixes == format prefixes
-    init = prog.func(IDP, "ExcludingIdDistributor.__init__")
+    init = prog.func_inlined(IDP, "ExcludingIdDistributor.__init__")
     sw = {dotted(c.args[0]) for c in ast.walk(init) if isinstance(c, ast.Call) and isinstance(c.func, ast.Attribute)
           and c.func.attr == "startswith" and c.args}
     for const in ("TranscriptNaming.novel_gene_prefix", "TranscriptNaming.transcript_prefix"):
@@ -272,9 +322,9 @@ def _role(e):
         return "strand"
     if "chr" in t or "seqid" in t:
         return "chr"
-    if t.endswith(".start") or t.endswith("[0]"):
+    if t.endswith(".start") or t.endswith("[0]") or t == "start" or t.endswith("_start"):
         return "start"
-    if t.endswith(".end") or t.endswith("[1]"):
+    if t.endswith(".end") or t.endswith("[1]") or t == "end" or t.endswith("_end"):
         return "end"
     return "?:" + t
 
@@ -325,7 +375,11 @@ def i4(prog, ctx):
     # who constructs FeatureIdStorage for per-chromosome printing: must pass db and chr_id so reference ids are preserved
     f = prog.func(DSP, "construct_models_in_parallel")
     calls = [c for c in walk_no_nested(f) if isinstance(c, ast.Call) and call_name(c) == "FeatureIdStorage"]
-    if len(calls) != 1 or len(calls[0].args) < 3 or src(calls[0].args[2]) != "chr_id":
+    from ..engine import argswap
+    bound = argswap.bind_args(calls[0], init, bound_method=True) if len(calls) == 1 else {}
+    b_chr = next((v for k, v in bound.items() if "chr" in k), None)
+    b_db = next((v for k, v in bound.items() if "db" in k), None)
+    if len(calls) != 1 or b_chr is None or b_db is None or src(b_chr) != "chr_id":
         ctx.fail("I4", f, f._qualname, "FeatureIdStorage(...)", "per-chromosome exon id storage is not built from (db, chr_id)")
     else:
         ctx.ok("I4", "%s:%d" % (DSP, calls[0].lineno), "exon id storage built once per chromosome task from (db, chr_id)")
@@ -335,7 +389,9 @@ def i4(prog, ctx):
         for s in walk_no_nested(f):
             if isinstance(s, ast.Assign) and s.value is calls[0]:
                 stor = dotted(s.targets[0])
-        bad = [c for c in pr if len(c.args) < 3 or src(c.args[2]) != stor]
+        gp_init = prog.func("src/transcript_printer.py", "GFFPrinter.__init__")
+        bad = [c for c in pr if src(next((v for k, v in argswap.bind_args(c, gp_init, bound_method=True).items() if "id_storage" in k or "exon_id" in k),
+                                          ast.Constant(value=None))) != stor]
         if bad or len(pr) < 2:
             ctx.fail("I4", (bad or [f])[0], f._qualname, "GFFPrinter(...)",
                      "the transcript-model and extended-annotation printers of one chromosome do not share one exon id storage")
@@ -350,10 +406,13 @@ def i4_callers(prog, ctx):
     for m, q, f in prog.all_functions():
         for c in walk_no_nested(f):
             if not (isinstance(c, ast.Call) and isinstance(c.func, ast.Attribute) and c.func.attr == "get_id"
-                    and "id_storage" in src(c.func.value) and len(c.args) == 3):
+                    and "id_storage" in src(c.func.value) and len(c.args) in (3, 4)):
                 continue
             n += 1
-            a_chr, a_feat, a_strand = c.args
+            a_chr, a_strand = c.args[0], c.args[-1]
+            a_feat = c.args[1] if len(c.args) == 3 else ast.Tuple(elts=list(c.args[1:-1]), ctx=ast.Load())
+            if len(c.args) == 4:
+                a_feat._parent = c
 
             def unalias(e):
                 if isinstance(e, ast.Name):
